@@ -418,6 +418,16 @@ pub async fn c19_check(
     let work = scratch.join(format!("c19_{}", out.evaluated));
     let _ = std::fs::remove_dir_all(&work);
     copy_dir_all(&dev.root, &work)?;
+    // ---- outside Account.tla, right before the upgrade: a second account in the
+    // same data directory, account and global preferences of every type, two servers
+    let extras = match c19_extras(&work, dev).await {
+        Ok(x) => Some(x),
+        Err(e) => {
+            eprintln!("c19 extras could not be set up: {e:?}");
+            out.count("c19_extras_setup_errors", 1);
+            None
+        }
+    };
     // the audit file of this process lives elsewhere; the copy is self-contained
     let tree_before = tree_digest(&work);
     // ---- dry run leaves the source untouched
@@ -496,11 +506,210 @@ pub async fn c19_check(
                     }
                 }
             }
+            if let Some(x) = &extras {
+                out.count("upgrades_with_second_account", 1);
+                if let Err(e) = c19_extras_after(&work, dev, x, &result.accounts, problems).await {
+                    problems.push(format!("fs->db upgrade: second account / preferences / servers cannot be read: {e}"));
+                }
+            }
         }
     }
     // sign back in so that the caller can finish normally
     let key: AccessKey = dev.password.clone().into();
     dev.account.sign_in(&key).await?;
     let _ = std::fs::remove_dir_all(&work);
+    Ok(())
+}
+
+
+pub struct C19Extras {
+    second_id: sos_core::AccountId,
+    second_password: secrecy::SecretString,
+    second_snapshot: Value,
+    second_status: sos_sync::SyncStatus,
+    prefs_account: Vec<(String, sos_preferences::Preference)>,
+    prefs_second: Vec<(String, sos_preferences::Preference)>,
+    prefs_global: Vec<(String, sos_preferences::Preference)>,
+    servers: std::collections::BTreeSet<String>,
+    servers_second: std::collections::BTreeSet<String>,
+}
+
+fn pref_json(p: Option<&sos_preferences::Preference>) -> Value {
+    p.map(|p| serde_json::to_value(p).unwrap_or(Value::Null)).unwrap_or(json!("<absent>"))
+}
+
+fn pref_values(tag: &str) -> Vec<(String, sos_preferences::Preference)> {
+    use sos_preferences::Preference;
+    vec![
+        (format!("verif.{tag}.bool"), Preference::Bool(true)),
+        (format!("verif.{tag}.number"), Preference::Number(12.5)),
+        (format!("verif.{tag}.int"), Preference::Number(-3.0)),
+        (format!("verif.{tag}.string"), Preference::String(format!("value of {tag}"))),
+        (format!("verif.{tag}.list"), Preference::StringList(vec!["a".into(), format!("{tag}"), "".into()])),
+        (format!("verif.{tag}.json"), Preference::Json(json!({"k": [1, 2, {"n": null}], "tag": tag}))),
+    ]
+}
+
+async fn c19_extras(work: &Path, dev: &Device) -> Result<C19Extras> {
+    use sos_backend::{BackendTarget, Preferences as BackendPreferences, ServerOrigins};
+    use sos_core::{Origin, Paths, RemoteOrigins};
+    use sos_preferences::PreferenceManager;
+    use sos_sync::SyncStorage;
+    let target = BackendTarget::FileSystem(Paths::new_client(work));
+    let (second_password, _) = sos_password::diceware::generate_passphrase()?;
+    let mut second = LocalAccount::new_account_with_builder(
+        "verif-second".to_string(),
+        second_password.clone(),
+        target.clone(),
+        |b| b.create_file_password(true),
+    )
+    .await?;
+    let key: AccessKey = second_password.clone().into();
+    second.sign_in(&key).await?;
+    let d = second.default_folder().await.ok_or_else(|| anyhow!("no default folder"))?;
+    for tok in ["v1", "v2"] {
+        let (meta, secret) = crate::values::value(tok);
+        second.create_secret(meta, secret, d.id().into()).await?;
+    }
+    let second_snapshot = account_snapshot(&mut second).await?;
+    let second_status = second.sync_status().await?;
+    let second_id = *second.account_id();
+    second.sign_out().await?;
+    // preferences
+    let mut prefs = BackendPreferences::new(target.clone());
+    prefs.load_global_preferences().await?;
+    let prefs_global = pref_values("global");
+    {
+        let g = prefs.global_preferences();
+        let mut g = g.lock().await;
+        for (k, v) in &prefs_global {
+            g.insert(k.clone(), v.clone()).await?;
+        }
+    }
+    let mut per = Vec::new();
+    for (id, tag) in [(dev.account_id, "first"), (second_id, "second")] {
+        prefs.new_account(&id).await?;
+        let p = prefs.account_preferences(&id).await.ok_or_else(|| anyhow!("no account preferences"))?;
+        let mut p = p.lock().await;
+        let vals = pref_values(tag);
+        for (k, v) in &vals {
+            p.insert(k.clone(), v.clone()).await?;
+        }
+        per.push(vals);
+    }
+    // servers
+    let mut sets = Vec::new();
+    for (id, urls) in [
+        (dev.account_id, vec![("one", "https://one.example.org/"), ("two", "http://192.168.1.7:5053/")]),
+        (second_id, vec![("three", "https://three.example.org/api")]),
+    ] {
+        let paths = Paths::new_client(work).with_account_id(&id);
+        let mut origins = ServerOrigins::new(BackendTarget::FileSystem(paths), &id);
+        let mut set = std::collections::BTreeSet::new();
+        for (name, url) in urls {
+            origins.add_server(Origin::new(name.to_string(), url.parse()?)).await?;
+            set.insert(format!("{name}|{url}"));
+        }
+        sets.push(set);
+    }
+    let servers_second = sets.pop().unwrap();
+    let servers = sets.pop().unwrap();
+    let prefs_second = per.pop().unwrap();
+    let prefs_account = per.pop().unwrap();
+    Ok(C19Extras {
+        second_id,
+        second_password,
+        second_snapshot,
+        second_status,
+        prefs_account,
+        prefs_second,
+        prefs_global,
+        servers,
+        servers_second,
+    })
+}
+
+async fn c19_extras_after(
+    work: &Path,
+    dev: &Device,
+    x: &C19Extras,
+    accounts: &[sos_core::PublicIdentity],
+    problems: &mut Vec<String>,
+) -> Result<()> {
+    use sos_backend::{Preferences as BackendPreferences, ServerOrigins};
+    use sos_core::RemoteOrigins;
+    use sos_preferences::PreferenceManager;
+    use sos_sync::SyncStorage;
+    let target = crate::account_world::reopen_target(work, "db").await?;
+    if !accounts.iter().any(|a| a.account_id() == &x.second_id) {
+        problems.push("fs->db upgrade: the second account of the data directory is missing from the result".to_string());
+    }
+    // the second account
+    match LocalAccount::new_unauthenticated(x.second_id, target.clone()).await {
+        Err(e) => problems.push(format!("fs->db upgrade: the second account cannot be opened: {e}")),
+        Ok(mut second) => {
+            let key: AccessKey = x.second_password.clone().into();
+            match second.sign_in(&key).await {
+                Err(e) => problems.push(format!("fs->db upgrade: sign in to the second account failed: {e}")),
+                Ok(_) => {
+                    let snap = account_snapshot(&mut second).await?;
+                    if snap != x.second_snapshot {
+                        problems.push(format!(
+                            "fs->db upgrade: the second account's decrypted folders differ: before={} after={snap}",
+                            x.second_snapshot
+                        ));
+                    }
+                    if second.sync_status().await? != x.second_status {
+                        problems.push("fs->db upgrade: the second account's sync status differs after the upgrade".to_string());
+                    }
+                    let _ = second.sign_out().await;
+                }
+            }
+        }
+    }
+    // preferences
+    let mut prefs = BackendPreferences::new(target.clone());
+    prefs.load_global_preferences().await?;
+    {
+        let g = prefs.global_preferences();
+        let g = g.lock().await;
+        for (k, v) in &x.prefs_global {
+            if pref_json(g.get_unchecked(k)) != pref_json(Some(v)) {
+                problems.push(format!("fs->db upgrade: global preference {k} is {:?}, was {v:?}", g.get_unchecked(k)));
+            }
+        }
+    }
+    for (id, vals, other) in [
+        (dev.account_id, &x.prefs_account, &x.prefs_second),
+        (x.second_id, &x.prefs_second, &x.prefs_account),
+    ] {
+        prefs.new_account(&id).await?;
+        let p = prefs.account_preferences(&id).await.ok_or_else(|| anyhow!("no account preferences"))?;
+        let p = p.lock().await;
+        for (k, v) in vals.iter() {
+            if pref_json(p.get_unchecked(k)) != pref_json(Some(v)) {
+                problems.push(format!("fs->db upgrade: preference {k} of account {id} is {:?}, was {v:?}", p.get_unchecked(k)));
+            }
+        }
+        for (k, _) in other.iter() {
+            if p.get_unchecked(k).is_some() {
+                problems.push(format!("fs->db upgrade: preference {k} of the other account shows up in account {id}"));
+            }
+        }
+    }
+    // servers
+    for (id, want) in [(dev.account_id, &x.servers), (x.second_id, &x.servers_second)] {
+        let origins = ServerOrigins::new(target.clone(), &id);
+        let got: std::collections::BTreeSet<String> = origins
+            .list_servers()
+            .await?
+            .into_iter()
+            .map(|o| format!("{}|{}", o.name(), o.url()))
+            .collect();
+        if &got != want {
+            problems.push(format!("fs->db upgrade: servers of account {id} are {got:?}, were {want:?}"));
+        }
+    }
+    crate::account_world::close_target(&target).await;
     Ok(())
 }
